@@ -902,6 +902,27 @@ def dict_get(ex, obj, args, kwargs, node, env, fr):
     raise Unsupported("dict.get symbolic key")
 
 
+@method("dict", "call:update")
+def dict_update(ex, obj, args, kwargs, node, env, fr):
+    """python dict.update with a concrete dict (or keyword arguments): in place"""
+    for a in args:
+        if not isinstance(a, dict):
+            raise Unsupported("dict.update with a symbolic mapping")
+        obj.update(a)
+    obj.update(kwargs)
+    return None
+
+
+@method("dict", "call:items")
+def dict_items(ex, obj, args, kwargs, node, env, fr):
+    return list(obj.items())
+
+
+@method("dict", "call:keys")
+def dict_keys(ex, obj, args, kwargs, node, env, fr):
+    return list(obj.keys())
+
+
 @method("dict", "call:values")
 def dict_values(ex, obj, args, kwargs, node, env, fr):
     return list(obj.values())
